@@ -29,7 +29,40 @@ def exhaustive_scripts(conf, maxlen):
     rec([], maxlen)
     return out
 
+class _Buffered:
+    """collects what a helper stream reports while it runs in its own thread; replayed into the report afterwards"""
+    def __init__(self):
+        self.cov = {}; self.calls = []
+    def count(self): self.calls.append(("count",))
+    def distinct(self, k): self.calls.append(("distinct", k))
+    def sample(self, x): self.calls.append(("sample", x))
+    def violation(self, text, replay, nofail=False): self.calls.append(("violation", text, replay, nofail))
+    def replay(self, rep):
+        for c in self.calls:
+            if c[0] == "count": rep.count()
+            elif c[0] == "distinct": rep.distinct(c[1])
+            elif c[0] == "sample": rep.sample(c[1])
+            else: rep.violation(c[1], c[2], nofail=c[3])
+        rep.cov.update(self.cov)
+
+
+def _cvol_stream(buf, tier, seed):
+    # extra stream: WHOLE-DEVICE correspondence of the fixed root directory operations embedded into images (Model/VolDir.v,
+    # theorems C01_vol_*) with src/dir.rs + src/fs.rs; runs beside the judged sessions (own executor / model processes)
+    try:
+        from props import cvol_corr
+        cvol_corr.run_stream(buf, tier, seed)
+    except Exception as e:
+        import traceback
+        buf.violation("whole-device root directory correspondence stream crashed: %s" % e,
+                      {"theorem_or_correspondence": "tools/props/cvol_corr.py", "traceback": traceback.format_exc()[-2000:]}, nofail=True)
+
+
 def run(rep, tier, seed):
+    import threading
+    cvol_buf = _Buffered()
+    cvol_thread = threading.Thread(target=_cvol_stream, args=(cvol_buf, tier, seed))
+    cvol_thread.start()
     rng = vlib.Rng(seed)
     confs = sessions.configs(tier)
     n = 70 if tier == "quick" else 1200
@@ -86,3 +119,5 @@ def run(rep, tier, seed):
         import traceback
         rep.violation("directory slot layer correspondence stream crashed: %s" % e,
                       {"theorem_or_correspondence": "tools/props/cdir_corr.py", "traceback": traceback.format_exc()[-2000:]}, nofail=True)
+    cvol_thread.join()
+    cvol_buf.replay(rep)
